@@ -25,6 +25,7 @@ type Val struct {
 	Fn interface{} // *ssa.Function
 	Bind []*Val
 	mapKey types.Type
+	bitMask *big.Int // when non-nil: every bit outside this mask is known to be zero (set by x&c, x&^c; used for disjoint |)
 }
 
 func sanitize(s string) string {
